@@ -1,6 +1,35 @@
 """C08 — TensorFrame concatenation, equality and column lookup laws."""
 from __future__ import annotations
 
+# Clause-by-clause coverage of the property statement (properties.jsonl C08): oracle keys that judge the clause and the
+# generator streams / drawn forms that exercise it.  stats() counts every form; sanity() fails closed when one is 0.
+CLAUSES = [
+    ("cat along rows yields the rows of the parts in order (targets included)", "keys cat-wrong:dim0*, roundtrip:rows*",
+     "rowpart/*, indep/same, reuse/row-*; cat(lst, dim) as list / tuple / keywords / torch_frame.utils.cat"),
+    ("cat along columns yields the union of the columns with names and data still paired",
+     "keys cat-wrong:dim1*, roundtrip:cols*, lookup-wrong:*", "colpart/*, lookup/col-cat, reuse/col-*"),
+    ("any row partition / per-stype column partition concatenates back to a frame EQUAL to the original",
+     "keys roundtrip:rows*, roundtrip:cols*, roundtrip:*:raises", "rowpart/cuts|perm, colpart/chunks, exhaustive (thorough)"),
+    ("mismatched column sets are rejected", "key accepts:row:names|row:ncols|row:stypes, accepts:met-widths, accepts:dict-keys*",
+     "malformed/row:*, indep/met-widths, indep/dict-keys"),
+    ("duplicated column names are rejected", "key accepts:col:dup-within|col:dup-across", "malformed/col:dup-*"),
+    ("conflicting targets are rejected", "key accepts:col:two-y|row:mixed-y", "malformed/col:two-y, malformed/row:mixed-y"),
+    ("empty lists are rejected", "key accepts:empty-list", "malformed/empty-list (dim 0 and 1)"),
+    ("equal exactly when same columns, same target, same values, missing matching missing feature entries",
+     "keys eq-wrong:*, eq-asymmetric via eq_ab/eq_ba, ne-inconsistent, eq-nonframe", "perturb/same:*, perturb/* ; == in both "
+     "operand orders, !=, __neq__, comparison with non-frames"),
+    ("a difference beyond tolerance in any single cell / column name / target value makes them unequal",
+     "keys eq-wrong:cell|nan|boundary|met-boundary|tol-above|name|name-swap|y-value|y-none|y-added|dict-key|drop-*|len",
+     "perturb/* ; extra: torch.allclose on both sides of the tolerance"),
+    ("looking a column up by name returns that column's data for every stype", "keys lookup-wrong:*, lookup-raises:*, "
+     "lookup-accepts-missing", "lookup/*, reuse/lookup-history; get_col_feat(name) and get_col_feat(name, return_stype=True)"),
+    ("construction rejects frames whose parts disagree on the number of rows or columns",
+     "key accepts:val:*", "malformed/val:rows|ncols|y|keys|empty-stype|dict-comp|ndim; constructor call forms pos/kw/allpos"),
+    ("quantifier: all TensorFrames of C07 -- however constructed / handed over; parts produced by selections",
+     "same keys; cat-mutated-input, eq-modifies", "frames passed through copy.copy / .to / .cpu (op via) as parts and operands; "
+     "ESel parts; props-wrong (num_cols, stypes, is_empty, num_rows)"),
+]
+
 import copy
 import json
 import math
@@ -734,9 +763,32 @@ def exhaustive(rng):
     return out
 
 
+def decorate(rng, e):
+    """draw every accepted call form: constructor forms, cat(lst, dim) forms, frames handed over through copy / device
+    transfer entry points"""
+    if e is None:
+        return None
+    op = e["op"]
+    if op == "build":
+        e = dict(e, frame=dict(e["frame"], ctor=rng.pick(F.CTORS)))
+    elif op == "sel":
+        e = dict(e, of=decorate(rng, e["of"]))
+    elif op == "cat":
+        e = dict(e, parts=[decorate(rng, p_) for p_ in e["parts"]],
+                 form=rng.wpick([(5, "list"), (2, "tuple"), (2, "kw"), (1, "utils")]))
+    elif op == "via":
+        e = dict(e, of=decorate(rng, e["of"]))
+    if op in ("build", "sel", "cat") and rng.chance(0.12):
+        e = {"op": "via", "how": rng.pick(["copy", "to", "cpu", "to_kw"]), "of": e}
+    return e
+
+
 def generate(rng, tier):
     n = 900 if tier == "quick" else 25000
     cases = [rng.wpick(GENS)(rng) for _ in range(n)]
+    for c in cases:
+        if c["kind"] in ("rowpart", "colpart", "perturb", "lookup", "indep"):
+            c["a"], c["b"] = decorate(rng, c["a"]), decorate(rng, c["b"])
     if tier == "thorough":
         cases += exhaustive(rng)
     return cases
@@ -814,6 +866,12 @@ def sanity(cases, obss):
             probs.append(f"no concatenation of {n} part(s)")
     if d["zero_row_parts"] == 0:
         probs.append("no zero-row part in a row partition")
+    for f_ in (["ctor:" + c_ for c_ in F.CTORS] + ["via:copy", "via:to", "via:cpu", "via:to_kw"]
+               + ["cat:list", "cat:tuple", "cat:kw", "cat:utils"]):
+        if d["forms"].get(f_, 0) == 0:
+            probs.append(f"call form {f_} never drawn")
+    if d["ne_checks"] == 0 or d["nonframe_eq_checks"] == 0:
+        probs.append("!= / __neq__ / comparison with a non-frame never observed")
     return probs
 
 
@@ -834,6 +892,11 @@ def run_sub(case, env, log):
         obs["a"]["frame"] = r["v"] if r["ok"] else None
         obs["a"]["read_exc"] = None if r["ok"] else r["exc"] + ": " + r["msg"]
         obs["a"]["type"] = type(ta["v"]).__name__
+        obs["a"]["props"] = _try(lambda: F.read_props(ta["v"])).get("v")
+        # other: Any -- anything that is not a TensorFrame is unequal, never an error
+        obs["a"]["eq_other"] = [(_try(lambda: bool(ta["v"] == o_)).get("v", "raise")) for o_ in
+                                (5, None, "x", ta["v"].feat_dict, [ta["v"]])]
+        obs["a"]["eq_self"] = _try(lambda: bool(ta["v"] == ta["v"])).get("v", "raise")
     if case["b"] is not None:
         tb = _try(lambda: F.ev(case["b"], env, log))
         obs["b"] = {"ok": tb["ok"], "exc": tb.get("exc"), "msg": tb.get("msg")}
@@ -846,6 +909,8 @@ def run_sub(case, env, log):
             e2 = _try(lambda: tb["v"] == ta["v"])
             obs["eq_ab"] = (bool(e1["v"]) if e1["ok"] else "raise:" + e1["exc"])
             obs["eq_ba"] = (bool(e2["v"]) if e2["ok"] else "raise:" + e2["exc"])
+            obs["ne_ab"] = _try(lambda: bool(ta["v"] != tb["v"])).get("v", "raise")
+            obs["neq_ab"] = _try(lambda: bool(ta["v"].__neq__(tb["v"]))).get("v", "raise")
             obs["operands_same"] = (F.full_snapshot(ta["v"]) == snap_a and F.full_snapshot(tb["v"]) == snap_b)
     lks = []
     for nm in case["lookups"]:
@@ -900,7 +965,45 @@ def demanded(msg):
     return any(d in msg for d in DEMANDED)
 
 
+def strip_via(e):
+    """the expression without copy / device-transfer wrappers"""
+    if e is None:
+        return None
+    if e["op"] == "via":
+        return strip_via(e["of"])
+    if e["op"] == "sel":
+        return dict(e, of=strip_via(e["of"]))
+    if e["op"] == "cat":
+        return dict(e, parts=[strip_via(p_) for p_ in e["parts"]])
+    return e
+
+
+def plain(case):
+    return dict(case, a=strip_via(case["a"]), b=strip_via(case.get("b")))
+
+
+def forms_of(e, acc):
+    if e is None:
+        return acc
+    if e["op"] == "build":
+        k = "ctor:" + e["frame"].get("ctor", "pos")
+    elif e["op"] == "via":
+        k = "via:" + e["how"]
+    elif e["op"] == "cat":
+        k = "cat:" + e.get("form", "list")
+    else:
+        k = None
+    if k:
+        acc[k] = acc.get(k, 0) + 1
+    for sub_ in ([e["of"]] if e["op"] in ("sel", "via") else e.get("parts", [])):
+        if sub_.get("op") != "ref":
+            forms_of(sub_, acc)
+    return acc
+
+
 def kinds_of_expr(e):
+    if e["op"] == "via":
+        return kinds_of_expr(e["of"])
     if e["op"] == "build":
         ks = sorted({f["kind"] for f in e["frame"]["feats"]})
         return "+".join(ks) if ks else "featureless"
@@ -974,6 +1077,15 @@ def oracle(case, obs):
         dim = case["a"].get("dim") if case["a"]["op"] == "cat" else None
         return dict(key=f"cat-wrong:dim{dim}{fl}" if dim is not None else f"frame-wrong:{kind}",
                     what=f"{kind}/{sub} on {kd}: {what}", expected=ra, observed=oa["frame"])
+    if oa.get("props") != F.ref_props(ra):
+        return dict(key="props-wrong", what=f"{kind}/{sub}: num_rows / num_cols / stypes / is_empty / len do not describe "
+                    "the frame", expected=F.ref_props(ra), observed=oa.get("props"))
+    if any(v is not False for v in oa.get("eq_other", [])):
+        return dict(key="eq-nonframe", what=f"{kind}/{sub}: a TensorFrame compared with a non-frame is not simply unequal",
+                    expected=False, observed=oa.get("eq_other"))
+    if oa.get("eq_self") is not True and (ra["y"] is None or all(v is not None for v in ra["y"])):
+        return dict(key="eq-wrong:self", what=f"{kind}/{sub}: a frame is not equal to itself", expected=True,
+                    observed=oa.get("eq_self"))
     # --- equality
     if case["b"] is not None:
         try:
@@ -990,6 +1102,10 @@ def oracle(case, obs):
         want, why = F.ref_equal(ra, rb)
         if not obs.get("operands_same", True):
             return dict(key="eq-modifies", what="== modified one of its operands")
+        if isinstance(obs.get("eq_ab"), bool) and (obs.get("ne_ab") is not (not obs["eq_ab"])
+                                                   or obs.get("neq_ab") is not (not obs["eq_ab"])):
+            return dict(key="ne-inconsistent", what=f"{kind}/{sub}: a != b / a.__neq__(b) is not the negation of a == b",
+                        observed={k_: obs.get(k_) for k_ in ("eq_ab", "ne_ab", "neq_ab")})
         if want is not None:
             for tag in ("eq_ab", "eq_ba"):
                 got = obs.get(tag)
@@ -1025,6 +1141,8 @@ def oracle(case, obs):
 
 
 def shrink(case):
+    if case["kind"] != "reuse":
+        case = plain(case)
     if case["kind"] == "reuse":
         for k in range(len(case["checks"])):
             if len(case["checks"]) > 1:
@@ -1075,6 +1193,7 @@ def shrink(case):
 def nontrivial_sig(case, obs):
     if not isinstance(obs, dict) or "a" not in obs:
         return None
+    case = plain(case)
     oa = obs["a"]
     kd = kinds_of_expr(case["a"])
     fr = oa.get("frame") or {}
@@ -1097,10 +1216,16 @@ def nontrivial_sig(case, obs):
 
 def stats(cases, obss):
     d = {"total": 0, "kinds": {}, "subkinds": {}, "storage": {}, "parts": {}, "rejections": 0, "eq_true": 0,
-         "eq_false": 0, "featureless_exprs": 0, "lookups": 0, "zero_row_parts": 0}
+         "eq_false": 0, "featureless_exprs": 0, "lookups": 0, "zero_row_parts": 0, "forms": {}, "ne_checks": 0,
+         "nonframe_eq_checks": 0}
     for c, o in zip(cases, obss):
         if c is None or not isinstance(o, dict) or "a" not in o:
             continue
+        forms_of(c["a"], d["forms"])
+        forms_of(c.get("b"), d["forms"])
+        d["ne_checks"] += "ne_ab" in o
+        d["nonframe_eq_checks"] += "eq_other" in o["a"]
+        c = plain(c)
         d["total"] += 1
         d["kinds"][c["kind"]] = d["kinds"].get(c["kind"], 0) + 1
         ks = c["kind"] + "/" + c["sub"]
@@ -1134,7 +1259,7 @@ def expr_modelable(e):
             if f["kind"] != "dense" and "ncols" in f:
                 return False
         return True
-    if e["op"] == "sel":
+    if e["op"] in ("sel", "via"):
         return expr_modelable(e["of"])
     return all(expr_modelable(p) for p in e["parts"])
 
@@ -1163,6 +1288,7 @@ def views_of(fr):
 def hyp_terms(case):
     """instances of the ragged-cat hypotheses of Props/C08.v occurring in this case"""
     out = []
+    case = plain(case)
     if case["kind"] == "rowpart" and case["a"]["parts"]:
         fr = case["a"]["parts"][0]["of"]["frame"]
         for st, kind, f in views_of(fr):
